@@ -26,6 +26,7 @@ Definition step_code (w : world) (a : action) : option world :=
             let sf := nodes w f in
             if (nterm sf =? t) && status_eqb (nst sf) Fenced && negb (nelect sf) then
               let newlog := truncate_to (nlog sf) tk k in
+              if negb (length newlog <=? length (nlog s)) then None else
               let sf' := mkN t Follower newlog false 0 0 (ncommit sf) [] in
               let s' := mkN t (nst s) (nlog s) (nelect s) (nehead s) (nrf s)
                             (attach_commit s ((f, length newlog) :: nacked s))
